@@ -673,6 +673,34 @@ def entry_names() -> list[str]:
 T_WAIT = 20.0
 
 
+# values that are not Box objects: the singletons / interned constants for which `is` coincides across independent
+# assignments, and one plain object() shared by every assignment that uses it.  Model identities >= 9000; truthy iff odd.
+SHARED = object()
+SINGLETONS = {9000: None, 9002: False, 9004: 0, 9006: "", 9008: (), 9011: SHARED}
+NONE_ID = 9000
+_TYPE_ID = {"NoneType": 9000, "bool": 9002, "int": 9004, "str": 9006, "tuple": 9008, "object": 9011}
+_REPR_ID = {"None": 9000, "False": 9002, "0": 9004, "''": 9006, "()": 9008, repr(SHARED): 9011}
+
+
+def vid(o) -> int:
+    """identity of a stored value as the model names it"""
+    if isinstance(o, Box):
+        return o.n
+    for k, v in SINGLETONS.items():
+        if o is v:
+            return k
+    raise TypeError(f"unknown value {o!r}")
+
+
+def _by_attr_error(e: AttributeError):
+    """an operation forwarded to a singleton fails with the singleton's own AttributeError: which object was it"""
+    import re
+    m = re.match(r"'(\w+)' object has no attribute '(\w+)'", str(e))
+    if m and m.group(2) != "twin" and m.group(1) in _TYPE_ID:
+        return _TYPE_ID[m.group(1)]
+    return None
+
+
 class Box:
     """the objects stored in locals / pushed on stacks; identity n, truthy iff n is odd"""
     __slots__ = ("n", "tag", "twin")
@@ -726,6 +754,8 @@ class Env:
         self.tok = 0
 
     def box(self, n):
+        if n in SINGLETONS:
+            return SINGLETONS[n]
         b = self.boxes.get(n)
         if b is None:
             b = self.boxes[n] = Box(n)
@@ -764,9 +794,14 @@ def _lookup_entry(env: Env, p, name: str) -> str:
         return "rterr"
     except AttributeError as e:
         m = re.match(r"'Box(\d+)' object has no attribute", str(e))
-        return f"fwd:{m.group(1)}" if m else "exn:AttributeError"
+        if m:
+            return f"fwd:{m.group(1)}"
+        sid = _by_attr_error(e)
+        return f"fwd:{sid}" if sid is not None else "exn:AttributeError"
     if isinstance(r, functools.partial) and r.args and isinstance(r.args[0], Box):
         return f"fwd:{r.args[0].n}"
+    if isinstance(r, functools.partial) and r.args and any(r.args[0] is v for v in SINGLETONS.values()):
+        return f"fwd:{vid(r.args[0])}"
     owner = getattr(r, "__self__", None)
     if owner is not None and type(owner) is LP:
         v = r()                         # a fallback bound to the proxy itself: what does it answer
@@ -793,7 +828,11 @@ def _lookup_entry(env: Env, p, name: str) -> str:
         return f"fwd:{r[1]}"
     if any(r is x for x in env.L + env.S):
         return "fb:FbWrapped"
-    return "fb:FbOther"
+    if hasattr(r, "__self__") and any(r.__self__ is v for v in SINGLETONS.values()):
+        return f"fwd:{vid(r.__self__)}"
+    if isinstance(r, type) and r.__name__ in _TYPE_ID:
+        return f"fwd:{_TYPE_ID[r.__name__]}"
+    return "fwd:any"                    # forwarded somewhere, but the result does not reveal to which singleton
 
 
 def tok(step) -> str:
@@ -854,7 +893,7 @@ def apply(env: Env, op) -> str:
             return "none"
         if k == "get":
             try:
-                return f"v{getattr(env.L[op[1]], NAMES[op[2]]).n}"
+                return f"v{vid(getattr(env.L[op[1]], NAMES[op[2]]))}"
             except AttributeError:
                 return "attrerr"
         if k == "del":
@@ -865,19 +904,19 @@ def apply(env: Env, op) -> str:
                 return "attrerr"
         if k == "iter":
             items = list(iter(env.L[op[1]]))
-            return "items:" + (",".join(f"{NAMES.index(n)}={v.n}" for n, v in items) or "-")
+            return "items:" + (",".join(f"{NAMES.index(n)}={vid(v)}" for n, v in items) or "-")
         if k == "lrel":
             env.mod.release_local(env.L[op[1]])
             return "none"
         if k == "push":
             r = env.S[op[1]].push(env.box(op[2]))
-            return "obj:" + (",".join(str(x.n) for x in r) or "-")
+            return "obj:" + (",".join(str(vid(x)) for x in r) or "-")
         if k == "pop":
             r = env.S[op[1]].pop()
-            return "none" if r is None else f"v{r.n}"
+            return "none" if r is None else f"v{vid(r)}"
         if k == "top":
             r = env.S[op[1]].top
-            return "none" if r is None else f"v{r.n}"
+            return "none" if r is None else f"v{vid(r)}"
         if k == "srel":
             env.mod.release_local(env.S[op[1]])
             return "none"
@@ -919,7 +958,7 @@ def apply(env: Env, op) -> str:
                 return _lookup_entry(env, p, names[int(a[1:])]) if int(a[1:]) < len(names) else "invalid"
             if a == "msg":
                 try:
-                    return f"v{p._get_current_object().n}"
+                    return f"v{vid(p._get_current_object())}"
                 except RuntimeError as e:
                     return "msg:default" if str(e) == "object is not bound" else "msg:" + str(e)[1:]
             if a == "bool":
@@ -928,15 +967,29 @@ def apply(env: Env, op) -> str:
                 r = repr(p)
                 if r == "<LocalProxy unbound>":
                     return "repr:unbound"
+                if r in _REPR_ID:
+                    return f"repr:{_REPR_ID[r]}"
                 return "repr:" + r[4:-1] if r.startswith("Box(") else "repr?" + r
             try:
                 if a == "cur":
-                    return f"v{p._get_current_object().n}"
+                    return f"v{vid(p._get_current_object())}"
                 if a == "get":
-                    return f"v{p.n}"
+                    try:
+                        return f"v{p.n}"
+                    except AttributeError as e:       # forwarded to a singleton, which has no attribute n
+                        sid = _by_attr_error(e)
+                        if sid is None:
+                            raise
+                        return f"v{sid}"
                 if a == "set":
                     env.tok += 1
-                    p.tag = env.tok
+                    try:
+                        p.tag = env.tok
+                    except AttributeError as e:
+                        sid = _by_attr_error(e)
+                        if sid is None:
+                            raise
+                        return f"v{sid}"
                     hit = [b.n for b in env.boxes.values() if b.tag == env.tok]
                     return f"v{hit[0]}" if len(hit) == 1 else f"set?{hit}"
             except RuntimeError:
@@ -951,7 +1004,7 @@ MUTATING = {"set", "del", "push", "pop", "lrel", "srel", "clean"}
 
 
 def _freeze(o):
-    return tuple((k, v.n) for k, v in o.items()) if isinstance(o, dict) else tuple(v.n for v in o)
+    return tuple((k, vid(v)) for k, v in o.items()) if isinstance(o, dict) else tuple(vid(v) for v in o)
 
 
 class PayloadWatch:
@@ -1148,7 +1201,9 @@ def oracle(steps) -> list[str]:
         if d[0] == "l":
             return dict(m.get(("l", d[1]), ())).get(d[2])
         st = m.get(("s", d[1]), ())
-        return (st[-1] + (1001 if d[2] else 0)) if st else None
+        if not st or st[-1] == NONE_ID:         # the code: a stack proxy whose top IS None reports itself unbound
+            return None
+        return st[-1] + (1001 if d[2] else 0)
     for c, op in steps:
         if c >= len(ctxs):
             outs.append("invalid")
@@ -1182,12 +1237,12 @@ def oracle(steps) -> list[str]:
             st = m.get(("s", op[1]), ())
             if st:
                 m[("s", op[1])] = st[:-1]
-                outs.append(f"v{st[-1]}")
+                outs.append("none" if st[-1] == NONE_ID else f"v{st[-1]}")
             else:
                 outs.append("none")
         elif k == "top":
             st = m.get(("s", op[1]), ())
-            outs.append(f"v{st[-1]}" if st else "none")
+            outs.append(f"v{st[-1]}" if st and st[-1] != NONE_ID else "none")
         elif k == "srel":
             m[("s", op[1])] = ()
             outs.append("none")
@@ -1260,7 +1315,7 @@ PREFIX = [(0, ("mkp", "l", 0, 0, 0)), (0, ("mkp", "s", 0, 0, 0)), (0, ("mkp", "s
 def observe(nctx: int, salt: int):
     out = []
     for c in range(nctx):
-        out += [(c, ("iter", 0)), (c, ("top", 0)), (c, ("px", 0, ACC[(salt + c) % 6])),
+        out += [(c, ("iter", 0)), (c, ("get", 0, 0)), (c, ("top", 0)), (c, ("px", 0, ACC[(salt + c) % 6])),
                 (c, ("px", 1 + (salt + c) % 2, ACC[(salt + c + 2) % 6])),
                 (c, ("px", (salt + c) % 3, f"e{(salt * 31 + c * 17) % len(entry_names())}"))]
     return out
@@ -1271,7 +1326,8 @@ LARGE = ["seta", "setb", "dela", "lrel", "push", "pop", "srel", "clean", "spawn"
 
 
 def _mk(kind: str, n: int):
-    return {"seta": ("set", 0, 0, n), "setb": ("set", 0, 1, n), "dela": ("del", 0, 0), "lrel": ("lrel", 0),
+    return {"setN": ("set", 0, 0, 9000), "setF": ("set", 0, 0, 9002), "setS": ("set", 0, 0, 9011), "pushN": ("push", 0, 9000),
+            "seta": ("set", 0, 0, n), "setb": ("set", 0, 1, n), "dela": ("del", 0, 0), "lrel": ("lrel", 0),
             "push": ("push", 0, n), "pop": ("pop", 0), "srel": ("srel", 0),
             "clean": ("clean", ((False, 0), (True, 0))), "spawn": ("spawn",), "thread": ("thread",)}[kind]
 
@@ -1296,6 +1352,7 @@ def enumerate_muts(alphabet, length: int, maxctx: int = 3):
     yield from rec([], 1)
 
 
+SGALPHA = ["setN", "setF", "setS", "seta", "dela", "pushN", "push", "pop", "spawn"]
 MWALPHA = ["seta", "push", "mwopen", "mwclose", "mwdrop", "spawn", "thread"]
 
 
@@ -1355,7 +1412,8 @@ def random_schedule(rng, maxlen: int, maxctx: int):
                 op = ("mwdrop", live.pop(rng.randrange(len(live))), int(rng.random() < 0.15))
         elif r < 0.28:
             val += 1
-            op = ("set", v, rng.randrange(3 if rng.random() < 0.3 else 2), val)
+            op = ("set", v, rng.randrange(3 if rng.random() < 0.3 else 2),
+                  val if rng.random() < 0.8 else rng.choice([9000, 9000, 9002, 9004, 9006, 9008, 9011]))
         elif r < 0.36:
             op = ("del", v, rng.randrange(2))
         elif r < 0.40:
@@ -1364,7 +1422,7 @@ def random_schedule(rng, maxlen: int, maxctx: int):
             op = ("lrel", v)
         elif r < 0.60:
             val += 1
-            op = ("push", v, val)
+            op = ("push", v, val if rng.random() < 0.9 else 9000)
         elif r < 0.72:
             op = ("pop", v)
         elif r < 0.75:
@@ -1385,6 +1443,14 @@ def random_schedule(rng, maxlen: int, maxctx: int):
             if nprox:
                 steps.append((c2, ("px", rng.randrange(nprox), rng.choice(ACC) if rng.random() < 0.5 else f"e{rng.randrange(len(entry_names()))}")))
     return steps
+
+
+def canon_model(steps, outs):
+    """top / pop hand back the stored object itself: Python's None on top is observed as None, like an empty stack"""
+    for k, (_, op) in enumerate(steps):
+        if op[0] in ("top", "pop") and k < len(outs) and outs[k] == f"v{NONE_ID}":
+            outs[k] = "none"
+    return outs
 
 
 def first_diff(a, b):
@@ -1614,6 +1680,20 @@ def schedules(rng, quick: bool, exh: dict):
             yield r, st
     exh["proxy_entries"] = dict(entries=len(entry_names()), schedules=3 * len(entry_names()),
                                 observation="every entry x 3 proxies (local attr, stack top, stack top.twin) x 3 contexts, all runners")
+    # values that are not fresh objects: None (an ordinary value of an attribute; on top of a stack it makes stack proxies
+    # unbound), False, and one object shared by every assignment - the values for which `is` coincides across assignments
+    L_sg = 4 if quick else 5
+    n = 0
+    for ln in range(1, L_sg + 1):
+        for m in enumerate_muts(SGALPHA, ln):
+            if not any(k in ("setN", "setF", "setS", "pushN") for _, k in m):
+                continue
+            st = realise(m, True)
+            for r in (RUNNERS if ln <= 2 else ("copy",)):
+                n += 1
+                yield r, st
+    exh["singleton_values"] = dict(alphabet=SGALPHA, max_len=L_sg, contexts=3, schedules=n,
+                                   observation="all contexts after every step (iter, getattr, top, proxies); all runners up to length 2")
     L_mw = 5 if quick else 6
     n = 0
     for ln in range(1, L_mw + 1):
@@ -1701,6 +1781,9 @@ def run(chk: Check) -> None:
                 chk.broken("harness", f"runner {runner}", f"{type(e).__name__}: {e}", case={"steps": [tok(s) for s in steps]})
                 out = ["runner-failed"] * len(steps)
             exp = oracle(steps)
+            for k_, o_ in enumerate(out):      # a lookup forwarded to a singleton may not reveal which one
+                if o_ == "fwd:any" and k_ < len(exp) and exp[k_].startswith("fwd:9") and len(exp[k_]) == 8:
+                    out[k_] = exp[k_]
             impl_outs.append(out)
             orc_outs.append(exp)
             d = first_diff(out, exp)
@@ -1717,6 +1800,8 @@ def run(chk: Check) -> None:
                         ("proxy:" if opk == "px" else "leak:") + opk)
                     if any(op[0] in ("mwdrop", "mwopen") for _, op in steps[:d + 1]) and key.startswith("leak:"):
                         key = "middleware-" + key
+                    elif key.startswith("leak:") and not any(op[0] in ("spawn", "thread") for _, op in steps[:d + 1]):
+                        key = "binding:" + opk      # wrong in the one context that exists: a binding lost / invented, not a leak
                     chk.fail(key, what,
                              {"runner": runner, "steps": [tok(s) for s in steps], "bad_step": d,
                               "impl": out[max(0, d - 3):d + 1], "expected": exp[max(0, d - 3):d + 1]})
@@ -1743,7 +1828,7 @@ def run(chk: Check) -> None:
             return
         n = len(chunk)
         for i, (runner, steps) in enumerate(chunk):
-            g, s = res[i].split(" "), res[n + i].split(" ")
+            g, s = canon_model(steps, res[i].split(" ")), canon_model(steps, res[n + i].split(" "))
             if g != impl_outs[i]:
                 st["mism"] += 1
                 if st["mism"] <= 3:
